@@ -27,7 +27,7 @@ ASSUMPTIONS = ['CachedMethods compatibility shim', 'readers are opened with calc
                'metadata lines that are themselves record syntax ($$$$, "> <...>", $DTYPE, $RFMT, $MFMT, "]]>") are outside the claim']
 FORMATS = ['sdf', 'esdf', 'rdf', 'erdf', 'mrv']
 CONFIG = {
-    'quick': {'shards': 16, 'budget_s': 150, 'n_mols': 1400, 'n_rx': 600, 'n_corrupt': 20, 'rounds': 1, 'n_indexed': 1,
+    'quick': {'shards': 16, 'budget_s': 300, 'n_mols': 1400, 'n_rx': 600, 'n_corrupt': 20, 'rounds': 1, 'n_indexed': 1,
               'floors': {'evaluations': 6000, 'distinct_nontrivial': 1500, 'roundtrip.molecule': 3000, 'roundtrip.reaction': 400,
                          'metadata.values': 2000, 'foreign.rdkit-blocks': 500, 'corrupted.files': 150, 'indexed.records': 300, 'indexed.damaged-files': 150, 'sessions.files': 150, 'sessions.path': 40, 'sessions.buffer': 20,
                          'charge-codes-seen': 9, 'stereo.labels-compared': 1000, 'repo-files.records': 100}},
